@@ -66,7 +66,9 @@ def build():
     u.include("shims/pest.rs")
     u.include("shims/strshim.rs")
     u.include("shims/yaml.rs") if False else None
-    u.raw(FIND_STUBS)
+    from . import u_directive
+    u.raw(u_directive.DIRECTIVE_DEFS)
+    u.include("shims/scanshim.rs")
     u.raw("""verus! {
 #[derive(Debug)]
 pub struct Infallible { pub _p: () }
@@ -75,25 +77,17 @@ pub fn string_from_str(s: &str) -> (r: Result<String, Infallible>) ensures r.is_
 // R15: `name.rfind("::").map_or(name.clone(), |i| name[i + 2..].to_string())` — last path segment, only stored in `_macro_name`
 #[verifier::external_body]
 pub fn last_path_segment(s: &String) -> (r: String) { unimplemented!() }
-// stubs of the callees in code_parser.rs (contracts proved in unit `directive`)
-#[verifier::external_body]
-pub fn check_for_ignore_directive(code: &str, subject_pos: usize, line_comment_extractor: &Regex) -> (r: bool)
-    requires subject_pos <= code.spec_bytes().len(), is_boundary(code.spec_bytes(), subject_pos as int), line_comment_extractor.pat() == 1
-    ensures r == directive_before(code.spec_bytes(), subject_pos as int, ignore_name())
-{ unimplemented!() }
-#[verifier::external_body]
-pub fn check_for_no_kvp_directive(code: &str, subject_pos: usize, line_comment_extractor: &Regex) -> (r: bool)
-    requires subject_pos <= code.spec_bytes().len(), is_boundary(code.spec_bytes(), subject_pos as int), line_comment_extractor.pat() == 1
-    ensures r == directive_before(code.spec_bytes(), subject_pos as int, no_kvp_name())
-{ unimplemented!() }
-#[verifier::external_body]
-pub fn get_name_for_ref_kvp_key() -> (r: &'static str) ensures r.spec_bytes() == ref_key(), r@ == seq!['r', 'e', 'f'] { unimplemented!() }
-impl LogRefEntry {
-    #[verifier::external_body]
-    pub fn extract_reference(log_literal: &str) -> (r: Option<u32>) ensures r == extract_spec(log_literal.spec_bytes()) { unimplemented!() }
-}
-}
 """)
+    # callees in code_parser.rs: stubs carrying the contracts proved in unit `directive`
+    _t = Unit("tmpd")
+    for wf in u_directive.wrappers(_t):
+        u.stub_of(wf, note="%s: contract proved in unit `directive`" % wf.emit_name)
+    rk, _st = u_directive.ref_key_fn(_t)
+    u.stub_of(rk, note="get_name_for_ref_kvp_key: contract proved in unit `directive`")
+    u.raw("impl LogRefEntry {\n")
+    exf, _st2 = u_directive.extract_fn(_t)
+    u.stub_of(exf, note="LogRefEntry::extract_reference: contract proved in unit `directive`")
+    u.raw("}\n}\n")
     common.entry_accessors(u, with_token=False)
 
     u.raw("verus! {\n")
@@ -268,7 +262,7 @@ pub open spec fn interest(name: Seq<char>, macros: Seq<RustLogMacro>, k: int) ->
          "view_entries(result@) == tree_entries(top.children, code.spec_bytes(), *config, top.children.len() as int)"),
         ("C05.where", LINECOL.replace("inp", "code.spec_bytes()")),
     ]
-    regex_shims(u, statics)
+    u_directive.static_shims(u, statics)
     u.raw("}\n")
     u.raw("verus! {\npub mod rust_log_ref_finder { pub use super::find; }\n")
     u.real_item(CP, r"pub enum CodeLanguage\b", lambda t: common.strip_doc(re.sub(r"#\[derive\([^\]]*\)\]", "#[derive(Clone, Copy)]", t)))
